@@ -1109,7 +1109,7 @@ fn s_methods_1d(ctx: &mut Ctx, cap: Duration) {
     let f = if tolerance_driven(&m) { f.normalised(a, b) } else { f };
     let sc = f.scale(a, b);
     let exact = f.exact(a, b);
-    let inp = format!("{} a={:e} b={:e} kl={:.3} alias={:.3e} f={}", method_name(&m), a, b, f.kl(a, b), alias_ratio(f.kl(a, b), method_tol(&m), 1.), f.describe());
+    let inp = format!("{} a={:e} b={:e} kl={:.3} klmin={:.3} alias={:.3e} f={}", method_name(&m), a, b, f.kl(a, b), f.kl(a, b), alias_ratio(f.kl(a, b), method_tol(&m), 1.), f.describe());
     let (r, t, evals) = call1(cap, m, &f, a, b);
     let inp = format!("{} spp={:.2}", inp, spp(evals, f.kl(a, b)));
     ctx.count(&format!("s1d/{}/{}", short(&m), r.tag()));
@@ -1159,7 +1159,8 @@ fn s_methods_1d(ctx: &mut Ctx, cap: Duration) {
         .min(alias_ratio(f.kl(a, b), method_tol(&m), al.norm()))
         .min(alias_ratio(g.kl(a, b), method_tol(&m), 1.))
         .min(alias_ratio(g.kl(a, b), method_tol(&m), be.norm()));
-      let inp = format!("{} a={:e} b={:e} kl={:.3} alias={:.3e} f={}", method_name(&m), a, b, f.kl(a, b).max(g.kl(a, b)), al_ratio, f.describe());
+      // (`klmin`: the least oscillatory of the integrands involved — finding D40 is about the constant ones)
+      let inp = format!("{} a={:e} b={:e} kl={:.3} klmin={:.3} alias={:.3e} f={}", method_name(&m), a, b, f.kl(a, b).max(g.kl(a, b)), f.kl(a, b).min(g.kl(a, b)), al_ratio, f.describe());
       let (rg, _, eg) = call1(cap, m, &g, a, b);
       let (f2, g2) = (f.clone(), g.clone());
       let (rc, _) = call1_fn(cap, m, move |x| al * f2.eval(x) + be * g2.eval(x), a, b);
@@ -1538,8 +1539,8 @@ fn acc1(ctx: &mut Ctx, cap: Duration, m: Integrator, f: &I1, a: f64, b: f64, fre
   let route = if free { "free-fn" } else { "integrator" };
   let (r, t, evals) = if free { call1_free(cap, m, &f, a, b) } else { call1(cap, m, &f, a, b) };
   let inp = format!(
-    "{} route={} ctx={} a={:e} b={:e} kl={:.3} alias={:.3e} f={}",
-    method_name(&m), route, tag, a, b, f.kl(a, b), alias_ratio(f.kl(a, b), method_tol(&m), 1.), f.describe()
+    "{} route={} ctx={} a={:e} b={:e} kl={:.3} klmin={:.3} alias={:.3e} f={}",
+    method_name(&m), route, tag, a, b, f.kl(a, b), f.kl(a, b), alias_ratio(f.kl(a, b), method_tol(&m), 1.), f.describe()
   );
   ctx.count(&format!("{}/{}/{}", tag, short(&m), r.tag()));
   if matches!(r, Res::Timeout) {
